@@ -1386,6 +1386,17 @@ func (e *Enc) unop(f *frame, x *ssa.UnOp) Val {
 		return Sc{app(s.Sort, "bvnot", s.T)}
 	case token.ARROW:
 		e.hookChanOp(f, "recv", x.X, x.Pos())
+		// ghost_loc_lastRecvOk: did the last receive deliver a value (1) or
+		// report a closed channel (0)? A plain receive cannot tell: 1.
+		if x.CommaOk {
+			if tt, isT := x.Type().(*types.Tuple); isT && tt.Len() == 2 {
+				ok := e.freshT(x.Name()+"_ok", SBool)
+				v := Tup{[]Val{e.freshVal(tt.At(0).Type(), x.Name()), Sc{ok}}}
+				e.setVar("G|loc_lastRecvOk", ite(ok, bv64(1), bv64(0)))
+				return v
+			}
+		}
+		e.setVar("G|loc_lastRecvOk", bv64(1))
 		return e.freshVal(x.Type(), x.Name())
 	}
 	e.abstract("unop:" + x.Op.String())
